@@ -22,7 +22,7 @@ def main():
     ck.e2('comments-and-stats', h_prof.make(dict(B=B, attrs=['a'], profile_attrs=[None])),
           bounds=dict(B=B), stop_on_violation=False, chunk_paths=50)
     ck.e2('shape', h_prof.make(dict(B=8, attrs=['a', 'b'],
-                                    profile_attrs=[None, ['a'], ['b', 'a'], ['b']])),
+                                    profile_attrs=[None, ['a'], ['b', 'a'], ['b'], []])),
           bounds=dict(B=8), stop_on_violation=True, chunk_paths=50)
     ck.finish()
 
